@@ -424,6 +424,66 @@ struct ArchiveDamage : Family {
 							ctx.count("probe.extent_checked");
 						}
 					}
+					// fault: the archive file is cut short by someone else while the object lives (undamaged archive only). Every member is then
+					// asked for again on the SAME object: "a member whose recorded extent does not lie inside the file is refused rather than
+					// delivered short" - a stream that is delivered holds the member's full recorded length and bytes
+					if (!changed && count > 0 && count <= 64 && bytes.size() > 64) {
+						auto extentOf = [&](size_t mi, uint64_t& start, uint64_t& len) {
+							if (t.kind == "vol" && bytes.size() >= 32) {
+								uint64_t S = ref::getU32(bytes, 20) & 0x7fffffffu, e = 24 + S + 8 + 14ull * mi;
+								if (e + 14 > bytes.size()) return false;
+								uint64_t blockOff = ref::getU32(bytes, static_cast<size_t>(e + 4));
+								if (blockOff + 8 > bytes.size()) return false;
+								start = blockOff + 8; len = ref::getU32(bytes, static_cast<size_t>(e + 8));
+								return Avol && Avol->GetCompressionCode(mi) == Archive::CompressionType::Uncompressed && start + len <= bytes.size();
+							}
+							if (t.kind == "clm") {
+								uint64_t e = 60 + 16ull * mi;
+								if (e + 16 > bytes.size()) return false;
+								start = ref::getU32(bytes, static_cast<size_t>(e + 8)); len = ref::getU32(bytes, static_cast<size_t>(e + 12));
+								return start + len <= bytes.size();
+							}
+							return false;
+						};
+						std::vector<size_t> cuts;
+						cuts.push_back(32 + static_cast<size_t>(mix64(plan.seed, 0x5c) % (bytes.size() - 32)));
+						cuts.push_back(bytes.size() - 1 - static_cast<size_t>(mix64(plan.seed, 0x5e) % 4));
+						for (size_t q = 0; q < 4 && q < count; ++q) { size_t mj = static_cast<size_t>(mix64(plan.seed, 0x60 + q) % count); uint64_t st = 0, ln = 0; if (extentOf(mj, st, ln) && ln >= 1) cuts.push_back(static_cast<size_t>(st + ln / 2)); }
+						size_t stepNo = 0;
+						for (size_t cut : cuts) {
+							if (cut >= bytes.size()) continue;
+							disk::put(t.path, std::vector<uint8_t>(bytes.begin(), bytes.begin() + static_cast<long>(cut)));
+							ctx.count("fault.archive_file_cut_short_under_live_object");
+							for (size_t mi = 0; mi < count; ++mi) {
+								Line so = mkline("op", (mi + cut) % 3 == 2 ? "extract" : "stream");
+								so.set("i", "~" + std::to_string(mi)).set("rseed", hex64(mix64(plan.seed, mi + 77)));
+								ctx.setOp(ops.size() + stepNo);
+								CallResult rs = doCall(plan, *A, Avol, so, t, count, "t" + std::to_string(stepNo));
+								std::string xpath = "_xt" + std::to_string(stepNo) + "/f.bin";
+								++stepNo;
+								++calls;
+								if (rs.out == ErrOther) ctx.fail("C05.ordinary-error", so.str() + " after the archive file was cut to " + std::to_string(cut) + " bytes failed with something that is not a std::exception");
+								if (rs.what.rfind("SIM:", 0) == 0) continue; // sub-slice probes of the stream walk: not this clause
+								if (rs.out != OkOut) { ctx.count("probe.member_refused_after_cut"); continue; }
+								uint64_t start = 0, len = 0;
+								if (!extentOf(mi, start, len)) continue;
+								std::string how = "the archive file was cut from " + std::to_string(bytes.size()) + " to " + std::to_string(cut) + " bytes while the archive object lived; ";
+								if (so.verb == "stream") {
+									if (rs.bytes.size() != len || memcmp(rs.bytes.data(), bytes.data() + start, static_cast<size_t>(len)) != 0)
+										ctx.fail("C05.no-short-stream", how + "member " + std::to_string(mi) + " (recorded extent " + std::to_string(start) + "+" + std::to_string(len) + ") was then delivered as a stream of " + std::to_string(rs.bytes.size()) + " bytes that are not the member's bytes");
+									ctx.count("probe.member_delivered_after_cut");
+								} else if (t.kind == "vol") {
+									std::vector<uint8_t> f;
+									if (disk::get(xpath, f)) {
+										if (f.size() != len || memcmp(f.data(), bytes.data() + start, static_cast<size_t>(len)) != 0)
+											ctx.fail("C05.no-short-stream", how + "ExtractFile of member " + std::to_string(mi) + " (recorded extent " + std::to_string(start) + "+" + std::to_string(len) + ") then reported success and wrote " + std::to_string(f.size()) + " bytes that are not the member's bytes");
+										ctx.count("probe.member_delivered_after_cut");
+									}
+								}
+							}
+						}
+						disk::put(t.path, bytes);
+					}
 					{ Armed a; A.reset(); }
 				} else ctx.count("probe.damaged_archive_refused");
 			}
